@@ -195,16 +195,15 @@ fn extract_class(
     };
     let body = Core::Block { statements };
 
-    if let Core::Type { lit, .. } = ty.to_py(imp) {
-        let name = Box::from(Core::Id { lit });
-        Ok(Core::ClassDef {
-            name,
-            parent_names,
-            body: Box::from(body),
-        })
-    } else {
-        panic!("class name should be type")
-    }
+    let lit = match ty.to_py(imp) {
+        Core::Type { lit, .. } => lit,
+        _ => ty.name.clone(), // a class named like a type which has a special form, such as Union
+    };
+    Ok(Core::ClassDef {
+        name: Box::from(Core::Id { lit }),
+        parent_names,
+        body: Box::from(body),
+    })
 }
 
 fn has_abstract_parent(clss: &Option<Class>, ctx: &Context) -> bool {
